@@ -114,6 +114,14 @@ def make_app():
             r.set_cookie(name, value, secret=secret)
             raise r
         app.response.set_cookie(name, value, secret=secret, path='/')
+        if via == 'refused-after':
+            # later code tries to put something under the same name that cannot be a cookie (too long; not text and no secret),
+            # is refused, and carries on: the cookie that WAS set is still the one the client gets
+            for bad, sec in (('y' * 5000, secret), ({'not': 'text'}, None)):
+                try:
+                    app.response.set_cookie(name, bad, secret=sec, path='/')
+                except (ValueError, TypeError):
+                    pass
         return 'x'
 
     @app.route('/get')
@@ -158,7 +166,7 @@ def run(chk):
         n = rng.choice([1, 1, 2, 3, 6, 20])
         val = curated[it] if it < len(curated) else ''.join(chr(rng.choice(cps)) for _ in range(n))
         name = rng.choice(['c', 'sid', 'a_b', 'X-1'])
-        raw, st = set_and_capture(app, name, val, via=rng.choice(['response', 'raised', 'redirect', 'raised-over']))
+        raw, st = set_and_capture(app, name, val, via=rng.choice(['response', 'raised', 'redirect', 'raised-over', 'refused-after']))
         if raw is None:
             got, present = [], False
         else:
@@ -176,7 +184,7 @@ def run(chk):
     for sec in secrets[:2]:
         for i, v in enumerate(values):
             name = 'sess%d' % (i % 3) if i < 10 else 'same'
-            raw, st = set_and_capture(app, name, v, secret=sec, via=rng.choice(['response', 'response', 'redirect', 'raised-over']))
+            raw, st = set_and_capture(app, name, v, secret=sec, via=rng.choice(['response', 'response', 'redirect', 'raised-over', 'refused-after']))
             if raw is None:
                 continue
             res, loads = read_back(app, name, raw, secret=sec)
